@@ -80,6 +80,14 @@ class Obj:
         self.__dict__.update(attrs)
 
 
+class Capture:
+    """a recorded call (np.einsum(...), Tensor(...)) with the attributes the interpreted code reads from its result"""
+
+    def __init__(self, what: str, args: tuple, kwargs: dict, **attrs):
+        self.what, self.args, self.kwargs = what, args, kwargs
+        self.__dict__.update(attrs)
+
+
 class Sym:
     """a named symbol: type objects and module members that only appear in isinstance / issubdtype tests"""
 
@@ -201,21 +209,44 @@ TYPE_NAMES = {"tuple": tuple, "int": int, "slice": slice, "list": list, "bool": 
 
 
 class Interp:
-    def __init__(self, prog: Program, max_steps: int = 20000, max_depth: int = 6):
+    def __init__(self, prog: Program, max_steps: int = 20000, max_depth: int = 6, constructors: dict | None = None, np_extra: dict | None = None):
         self.prog = prog
+        self.constructors = constructors or {}  # class qualname -> callable(args, kwargs) that stands for the constructor
+        self.np_extra = np_extra or {}  # numpy member name -> callable
         self.steps = 0
         self.max_steps = max_steps
         self.max_depth = max_depth
+
+    def isinstance_(self, v, t) -> bool:
+        from geolint.model import ClassInfo as _CI
+
+        if isinstance(t, tuple):
+            return any(self.isinstance_(v, x) for x in t)
+        if isinstance(t, _CI):
+            cls = v.__dict__.get("__cls__") if isinstance(v, Obj) else None
+            return cls is not None and self.prog.is_subclass(cls, t)
+        return _isinstance(v, t)
 
     # ------------------------------------------------------------------ calls
     def call(self, fn: FunctionInfo, args: list, kwargs: dict | None = None, depth: int = 0):
         if depth > self.max_depth:
             raise Unsupported("call depth")
         a = fn.node.args
-        if a.vararg or a.kwarg or a.kwonlyargs:
+        if a.kwarg:
             raise Unsupported(f"signature of {fn.name}")
         names = [p.arg for p in a.posonlyargs + a.args]
         env: dict = {}
+        kwargs = dict(kwargs or {})
+        for p_, d_ in zip(a.kwonlyargs, a.kw_defaults):
+            if p_.arg in kwargs:
+                env[p_.arg] = kwargs.pop(p_.arg)
+            elif d_ is not None:
+                env[p_.arg] = self.expr(d_, {}, fn, depth)
+            else:
+                raise Unsupported(f"missing keyword argument {p_.arg} of {fn.name}")
+        if a.vararg is not None:
+            env[a.vararg.arg] = tuple(args[len(names):])
+            args = args[:len(names)]
         kwargs = dict(kwargs or {})
         defaults = dict(zip(names[len(names) - len(a.defaults):], a.defaults))
         for i, nm in enumerate(names):
@@ -264,6 +295,12 @@ class Interp:
                 obj[key] = value
             else:
                 raise Unsupported("item assignment")
+        elif isinstance(target, ast.Attribute):
+            obj = self.expr(target.value, env, fn, depth)
+            if isinstance(obj, Obj):
+                obj.__dict__[target.attr] = value
+            else:
+                raise Unsupported("attribute assignment on a non-object")
         else:
             raise Unsupported(f"assignment target {type(target).__name__}")
 
@@ -332,6 +369,22 @@ class Interp:
             raise _Continue()
         elif isinstance(st, ast.Break):
             raise _Break()
+        elif isinstance(st, ast.Delete):
+            for t in st.targets:
+                if isinstance(t, ast.Subscript):
+                    obj = self.expr(t.value, env, fn, depth)
+                    key = self.expr(t.slice, env, fn, depth)
+                    if isinstance(obj, (list, dict)):
+                        try:
+                            del obj[key]
+                        except (IndexError, KeyError):
+                            raise Raised("IndexError")
+                    else:
+                        raise Unsupported("del on a non-container")
+                elif isinstance(t, ast.Name):
+                    env.pop(t.id, None)
+                else:
+                    raise Unsupported("del target")
         elif isinstance(st, ast.Pass):
             return
         elif isinstance(st, ast.Assert):
@@ -349,6 +402,8 @@ class Interp:
         return bool(v)
 
     def binop(self, op, a, b):
+        if isinstance(a, (Obj, Capture)) or isinstance(b, (Obj, Capture)):
+            raise Unsupported("operator on an abstract object")
         if isinstance(a, Arr) or isinstance(b, Arr):
             if isinstance(op, (ast.Add, ast.Sub, ast.Mult)):
                 return Arr(max(as_array(a).ndim, as_array(b).ndim), "i")
@@ -385,11 +440,15 @@ class Interp:
             return INTEGRAL
         if nm in TYPE_NAMES:
             return TYPE_NAMES[nm]
+        if nm == "isinstance":
+            return self.isinstance_
         if nm in BUILTINS:
             return BUILTINS[nm]
         q = self.prog.resolve_name(fn.module, nm, fn)
         if q in self.prog.functions:
             return self.prog.functions[q]
+        if q in self.prog.classes:
+            return self.prog.classes[q]
         if q in ("numpy",):
             return NP
         if q in ("math",):
@@ -498,14 +557,24 @@ class Interp:
         if isinstance(e, ast.Attribute):
             obj = self.expr(e.value, env, fn, depth)
             if obj is NP or obj is _Math:
+                if obj is NP and e.attr in self.np_extra:
+                    return self.np_extra[e.attr]
                 if hasattr(obj, e.attr):
                     return getattr(obj, e.attr)
                 raise Unsupported(f"numpy member {e.attr}")
-            if isinstance(obj, (Arr, Broadcast, DType, slice)):
+            if isinstance(obj, (Arr, Broadcast, DType, slice, Capture)):
                 if hasattr(obj, e.attr):
                     return getattr(obj, e.attr)
                 raise Unsupported(f"attribute {e.attr} of an abstract array")
+            from geolint.model import ClassInfo as _CI2
+
+            if isinstance(obj, _CI2) and e.attr == "__new__":
+                return lambda c, *a, **k: Obj(__cls__=c)
             if isinstance(obj, Obj):
+                if e.attr == "__class__":
+                    return obj.__dict__.get("__cls__")
+                if e.attr == "__dict__":
+                    return obj.__dict__
                 if e.attr in obj.__dict__:
                     return obj.__dict__[e.attr]
                 # a property / method of the receiver's class
@@ -516,7 +585,8 @@ class Interp:
                 if m is not None:
                     return ("boundmethod", m, obj)
                 raise Unsupported(f"attribute {e.attr} of the receiver")
-            if isinstance(obj, (list, tuple, dict, set)) and e.attr in ("pop", "insert", "remove", "append", "index", "count", "extend", "copy", "get", "add"):
+            if isinstance(obj, (list, tuple, dict, set)) and e.attr in ("pop", "insert", "remove", "append", "index", "count", "extend", "copy", "get", "add", "update",
+                                                                        "items", "keys", "values", "setdefault"):
                 return getattr(obj, e.attr)
             raise Unsupported(f"attribute {e.attr} of {type(obj).__name__}")
         if isinstance(e, (ast.ListComp, ast.GeneratorExp, ast.SetComp)):
@@ -551,6 +621,16 @@ class Interp:
                 raise Unsupported("** in a call")
             if isinstance(f, FunctionInfo):
                 return self.call(f, args, kwargs, depth + 1)
+            from geolint.model import ClassInfo as _CI
+
+            if isinstance(f, _CI):
+                if f.qualname in self.constructors:
+                    return self.constructors[f.qualname](args, kwargs)
+                init = self.prog.lookup(f, "__init__")
+                me = Obj(__cls__=f)
+                if init is not None:
+                    self.call(init, [me] + args, kwargs, depth + 1)
+                return me
             if isinstance(f, tuple) and f and f[0] == "boundmethod":
                 return self.call(f[1], [f[2]] + args, kwargs, depth + 1)
             if f is map:
